@@ -214,13 +214,34 @@ class DebugInfo:
                 if not marked and end_offset > start_offset:
                     # the body produced no code at all (it consists of
                     # code-less statements only, or the optimiser
-                    # removed it): whatever code the block has belongs
-                    # to its start statement
+                    # removed it). The empty records of the body's own
+                    # statements still say where the body would be:
+                    # the code in front of that point belongs to the
+                    # start statement, the code behind it to the end
+                    # statement. (Only statements that are inside this
+                    # block in the source count - an empty record of a
+                    # statement in front of the block sits at the very
+                    # same offset as the block's first instruction.)
+                    def inside(node):
+                        parent = getattr(node, 'parent', None)
+                        while parent is not None:
+                            if parent is block:
+                                return True
+                            parent = getattr(parent, 'parent', None)
+                        return False
+
+                    body_offsets = [
+                        r.start_offset for r in self.stmts
+                        if r.start_offset == r.end_offset and
+                        start_offset <= r.start_offset <= end_offset and
+                        inside(r.node)
+                    ]
+                    split = min(body_offsets) if body_offsets else end_offset
                     add_node_record(block.start_stmt,
                                     start_offset,
-                                    end_offset)
+                                    split)
                     add_node_record(block.end_stmt,
-                                    end_offset,
+                                    split,
                                     end_offset)
 
         self.stmts.sort(key=lambda r: r.start_offset)
